@@ -46,13 +46,18 @@ MODES = ('path', 'none')
 CORE7 = ('rename_def', 'change_params', 'del_body', 'paste', 'type', 'undo', 'wait4')
 CORE5 = ('rename_def', 'change_params', 'paste', 'type', 'undo')
 
-_B = tuple(model.BASES)
+_B = ('funcs', 'klass', 'mixed')
+YIELD6 = model.YIELD_EVENTS + ('undo',)
+_GEN = ('depth<=2/yield-tail events/gen', [('gen', 'YIELD6', 1), ('gen', 'YIELD6', 2)])
 # levels, simplest first: (name, [(base, alphabet name, depth), ...])
 PLANS = {
     'quick': [('depth1/13 events', [(b, 'Q13', 1) for b in _B]),
+              _GEN,
               ('depth2/13 events', [(b, 'Q13', 2) for b in _B]),
               ('depth3/core 5 events/funcs', [('funcs', 'CORE5', 3)])],
     'thorough': [('depth1/28 events', [(b, 'ALL28', 1) for b in _B]),
+                 _GEN,
+                 ('depth3/yield-tail events/gen', [('gen', 'YIELD6', 3)]),
                  ('depth2/13 events', [(b, 'Q13', 2) for b in _B]),
                  ('depth2/28 events/mixed', [('mixed', 'ALL28', 2)]),
                  ('depth3/13 events', [(b, 'Q13', 3) for b in _B]),
@@ -61,7 +66,7 @@ PLANS = {
     'dev': [('depth1/13 events', [(b, 'Q13', 1) for b in _B]),
             ('depth2/core 7 events/funcs', [('funcs', 'CORE7', 2)])],
 }
-ALPHABETS = {'Q13': model.QUICK_ALPHABET, 'CORE7': CORE7, 'CORE5': CORE5,
+ALPHABETS = {'Q13': model.QUICK_ALPHABET, 'YIELD6': YIELD6, 'CORE7': CORE7, 'CORE5': CORE5,
              'ALL28': model.ALL_EVENTS}
 
 
@@ -864,6 +869,9 @@ ASSUMPTIONS = [
     'names defined outside the buffer are compared by name and type only',
     'every history first opens the buffer with the base text (step 0: Script + battery, judged '
     'like any step), so a history of depth d contains d incremental re-parses',
+    'base `gen` (a plain function and a generator, both called and iterated at module level) '
+    'is explored with the 5 yield-tail events + undo to depth 2 (thorough: 3): edits that touch '
+    'only the last body line, for which parso keeps the funcdef node object',
     'quick tier: all histories of depth <= 2 over the 13-event alphabet on 3 bases x 2 modes '
     'and all depth-3 histories over the 5-event core alphabet on base `funcs`; thorough: '
     'depth 1 over all 28 events and depth <= 3 over 13 events on all bases, depth 2 over 28 '
